@@ -78,4 +78,11 @@ class PDDLTokenizer:
 
         :return: the list of expressions that represent the PDDL file.
         """
-        return self.read_from_tokens(self.tokenize())
+        tokens = self.tokenize()
+        expression = self.read_from_tokens(tokens)
+        if len(tokens) > 0:
+            raise SyntaxError(
+                f"Unexpected token {tokens[0]} after the end of the expression"
+            )
+
+        return expression
